@@ -488,13 +488,22 @@ func c20Disjunction(sym *Sym, cl *ssa.Function, hit, miss bool) string {
 // iteration.
 func reachesLatchFree(b *ssa.BasicBlock, l ssaLoop) bool {
 	body := l.body()
-	for _, p := range b.Preds {
-		if body[p] && p != l.Header {
-			return true
+	seen := map[*ssa.BasicBlock]bool{}
+	var walk func(b *ssa.BasicBlock) bool
+	walk = func(b *ssa.BasicBlock) bool {
+		if seen[b] {
+			return false
 		}
-		if !body[p] && p != l.Header && l.Header.Dominates(p) && reachesLatchFree(p, l) {
-			return true
+		seen[b] = true
+		for _, p := range b.Preds {
+			if body[p] && p != l.Header {
+				return true
+			}
+			if !body[p] && p != l.Header && l.Header.Dominates(p) && walk(p) {
+				return true
+			}
 		}
+		return false
 	}
-	return false
+	return walk(b)
 }
